@@ -173,8 +173,12 @@ func (c *ctx) forEntry(e *tlx.Entry) {
 			c.one(e, "truncate", fmt.Sprintf("%s|truncate=%d", base, l), seed[:l], false)
 		}
 		words := len(seed) / 4
-		if words > 48 {
-			words = 48
+		maxWords := 48
+		if c.run.Thorough() {
+			maxWords = 400
+		}
+		if words > maxWords {
+			words = maxWords
 		}
 		for w := 0; w < words; w++ {
 			for ri, r := range c.repl {
@@ -188,6 +192,39 @@ func (c *ctx) forEntry(e *tlx.Entry) {
 					pos = "constructor-id"
 				}
 				c.one(e, pos+"<-"+c.replName[ri], fmt.Sprintf("%s|word%d=%s", base, w, c.replName[ri]), m, false)
+			}
+		}
+		if !c.run.Thorough() {
+			continue
+		}
+		// thorough: two faults at once among the first 16 words (a count and the data it counts, a length and
+		// a nested id, ...) over the 9 most hostile replacements; and single bytes, which reach string headers
+		// and flags at unaligned positions
+		hostile := []int{0, 2, 3, 4, 5, 7, 11, 12, 14} // 0, -1, maxint32, minint32, 16 MiB header, vector id, container id, gzip id, unregistered id
+		w2 := len(seed) / 4
+		if w2 > 16 {
+			w2 = 16
+		}
+		for a := 0; a < w2; a++ {
+			for b := a + 1; b < w2; b++ {
+				for _, ra := range hostile {
+					for _, rb := range hostile {
+						m := append([]byte{}, seed...)
+						binary.LittleEndian.PutUint32(m[4*a:], c.repl[ra])
+						binary.LittleEndian.PutUint32(m[4*b:], c.repl[rb])
+						c.one(e, "two-words<-"+c.replName[ra]+"+"+c.replName[rb], fmt.Sprintf("%s|word%d=%s|word%d=%s", base, a, c.replName[ra], b, c.replName[rb]), m, false)
+					}
+				}
+			}
+		}
+		for i := 4; i < len(seed) && i < 96; i++ {
+			for _, v := range []byte{0x00, 0x7f, 0x80, 0xfe, 0xff} {
+				if seed[i] == v {
+					continue
+				}
+				m := append([]byte{}, seed...)
+				m[i] = v
+				c.one(e, fmt.Sprintf("byte<-%02x", v), fmt.Sprintf("%s|byte%d=%02x", base, i, v), m, false)
 			}
 		}
 	}
@@ -308,7 +345,7 @@ func main() {
 		fmt.Println("replay of", r.Entry, r.Case, "— re-run the quick tier; the case id is deterministic")
 		run.Finish()
 	}
-	run.Rule("for every registered constructor: its valid base encodings (all fields set / mandatory only) x every prefix truncation x every 32-bit word position x a replacement alphabet of 18 values (boundary integers, 16 MiB string header, vector/Bool/null ids, container/gzip/rpc_result ids, an enum member id, struct ids of two interfaces, an unregistered id); containers and vectors with counts/sizes in {0,1,exact+-1,-1,2^31-1,2^31,2^24}; gzip bodies {valid, truncated, not gzip, empty, vector, nested, garbage}; through Decode(named type), DecodeUnknownObject and DecodeUnknownObject with hints; non-trivial = distinct mutated input")
+	run.Rule("for every registered constructor: its valid base encodings (all fields set / mandatory only) x every prefix truncation x every 32-bit word position x a replacement alphabet of 18 values (boundary integers, 16 MiB string header, vector/Bool/null ids, container/gzip/rpc_result ids, an enum member id, struct ids of two interfaces, an unregistered id); containers and vectors with counts/sizes in {0,1,exact+-1,-1,2^31-1,2^31,2^24}; gzip bodies {valid, truncated, not gzip, empty, vector, nested, garbage}; through Decode(named type), DecodeUnknownObject and DecodeUnknownObject with hints; thorough tier: word positions up to the 400th, every pair of faults among the first 16 words over 9 hostile values, every byte 4..95 x {00,7f,80,fe,ff}; non-trivial = distinct mutated input")
 	run.Assume("allocation bound: 256 KiB + 64 bytes per input byte per decode call, except below gzip_packed", "workers run under ulimit -v so that a runaway allocation kills the worker, not the machine; the case announced last is blamed")
 	workers := 16
 	dir := os.Getenv("VERIF_BUILD")
